@@ -80,6 +80,26 @@ def parseRegionV (ws : List String) : Option (Option (Region Float)) :=
   | "genprism" :: _ => parseGenPrism ws
   | _ => (parseRegion ws).map fun r => if r.valid && anglesValid ws then some r else none
 
+/-- `(n | t x y z | x r00 … r22 tx ty tz) rest…` -/
+def parseXf : List String → Option (Xform Float × List String)
+  | "n" :: rest => some (.none, rest)
+  | "t" :: x :: y :: z :: rest => match pfs16 [x, y, z] with
+    | some [x, y, z] => some (.tra ⟨x, y, z⟩, rest)
+    | _ => none
+  | "x" :: rest => match pfs16 (rest.take 12) with
+    | some [a, b, c, d, e, f, g, h, i, x, y, z] =>
+      some (.full ⟨⟨⟨a, b, c⟩, ⟨d, e, f⟩, ⟨g, h, i⟩⟩, ⟨x, y, z⟩⟩, rest.drop 12)
+    | _ => none
+  | _ => none
+
+def splitAt (sep : String) (ws : List String) : List String × List String :=
+  (ws.takeWhile (· ≠ sep), (ws.dropWhile (· ≠ sep)).drop 1)
+
+def showNodes (st : BState Float) : String :=
+  let nodes := st.nodes.map fun (s, id) =>
+    s!" ; {senseCh s} {id} {showSurface (st.store.surfaces.getD id (.sphereCentered 0.0))}"
+  s!"nodes {st.nodes.length}{String.join nodes}"
+
 /-- `<tol> (n | t x y z | x r00 … r22 tx ty tz) rest…` -/
 def parseHead : List String → Option (Tol Float × Xform Float × List String)
   | t :: "n" :: rest => match pf16 t with
@@ -148,6 +168,48 @@ def driverStep (st : Unit) (line : String) : Unit × String :=
       | [a, b, c, d, e, f, g, h, i, x, y, z] =>
         showSurface (s.transform ⟨⟨⟨a, b, c⟩, ⟨d, e, f⟩, ⟨g, h, i⟩⟩, ⟨x, y, z⟩⟩)
       | _ => "bad-op"
+  -- `softeq <rel> <abs> <surfA> | <surfB>` : SoftSurfaceEqual / ExactSurfaceEqual
+  | "softeq" :: r :: a :: rest =>
+    (match pf16 r, pf16 a with
+     | some rel, some abs =>
+       if !(rel > 0.0 && abs > 0.0) then "bad-op" else
+       let (l, rr) := splitBar rest
+       (match l, rr with
+        | ta :: da, tb :: db =>
+          (match pfs16 da, pfs16 db with
+           | some da, some db =>
+             (match parseSurface ta da, parseSurface tb db with
+              | some sa, some sb =>
+                let soft := softEq ⟨rel, abs⟩ sa sb
+                let ex := exactEq sa sb
+                s!"{if soft then 1 else 0} {if ex then 1 else 0}"
+              | _, _ => "bad-op")
+           | _, _ => "bad-op")
+        | _, _ => "bad-op")
+     | _, _ => "bad-op")
+  -- `build2 <tol> <xf1> <region1> / <xf2> <region2>` : two objects of ONE unit
+  | "build2" :: t :: rest =>
+    (match pf16 t with
+     | some tolv =>
+       if !(tolv > 0.0 && tolv < 1.0) || !rest.contains "/" then "bad-op" else
+       let tol := Tol.fromRelative tolv
+       let (w1, w2) := splitAt "/" rest
+       (match parseXf w1, parseXf w2 with
+        | some (x1, r1), some (x2, r2) =>
+          (match parseRegionV r1, parseRegionV r2 with
+           | some (some a), some (some b) =>
+             let s1 := a.build tol x1
+             if s1.diverged then "diverged" else
+             let s2 := b.buildIn s1.store tol x2
+             if s2.diverged then "diverged" else
+             let surfs := s2.store.surfaces.map fun s => s!" ; {showSurface s}"
+             -- the first object's literals are printed against the unit as it was after it
+             s!"ok {showNodes s1} | {showNodes s2} | surfs {s2.store.surfaces.length}{String.join surfs}"
+           | some none, some _ => "err validate"
+           | some _, some none => "err validate"
+           | _, _ => "bad-op")
+        | _, _ => "bad-op")
+     | none => "bad-op")
   | "build" :: rest =>
     (match parseHead rest with
      | some (tol, tra, rw) =>
